@@ -12,7 +12,10 @@ RULE = ("random assignment histories (1-4 types, single keys and lists/tuples/ar
         "a case is non-trivial if it has >= 2 ops and touches >= 1 type twice or uses a list key; distinct = distinct (types, op list)")
 EXTRA_TRUSTED = ["Model/Density.lean is a hand transcription of Density.__setitem__/Diameter.__setitem__/check"]
 ASSUMPTIONS = ["assigned values are finite positive numbers; type names are those of the type list"]
-NAMES = ['A', 'B', 'C', 'D']
+NAMES = ['poly', 'B', 'solvent', 'D4']        # not alphabetical, multi-character
+def fresh_key(t):
+    """an equal but NOT identical str object (keys typed by a user are not the objects stored in the types list)"""
+    return (t + ' ')[:-1]
 
 def opt(x):
     return 'N' if x is None else f2h(x)
@@ -39,7 +42,7 @@ def obs_diam(d, n, types):
     return ('diam %s volume %s sigma %s check %s' % (dia, vol, sig, chk)), sig == sig2
 
 def key_of(ts, types, style):
-    names = [types[t] for t in ts]
+    names = [fresh_key(types[t]) for t in ts]
     if style == 'single':
         return names[0]
     if style == 'tuple':
